@@ -10,6 +10,23 @@ package compiler
 //@   modifies nothing
 //@   ensures result == hasOp(vm.Opcode(opcode))
 
+// ---- relocation of jump targets (C10, C02): when the constant-pool header is put in front of the code, the
+// ---- targets of the top-level jumps move by its size. The body of an async block is executed by a VM of its
+// ---- own from offset 0, so jumps inside it stay body-relative: the relocation walk must step over OpAsync's
+// ---- operand *and body*. topLevel(code, p): p is the start of an instruction of the top-level stream (the
+// ---- positions reached from 0 by instruction length, an async instruction counting its body).
+//@ spec func le32(row [0]byte, off int, p int) int = row[off+p] + 256*row[off+p+1] + 65536*row[off+p+2] + 16777216*row[off+p+3]
+//@ spec func ilen(row [0]byte, off int, p int) int = 1 + ite(row[off+p] == byte(vm.OpAsync), 4 + le32(row, off, p+1), ite(hasOp(vm.Opcode(row[off+p])), 4, 0))
+//@ spec func topLevel(row [0]byte, off int, p int) bool
+//@ axiom topZero(row [0]byte, off int): topLevel(row, off, 0)
+//@ axiom topStep(row [0]byte, off int, p int): topLevel(row, off, p) && p >= 0 ==> topLevel(row, off, p + ilen(row, off, p))
+//@ func (*Compiler).adjustJumpTargets
+//@   requires c != nil
+//@   mathint
+//@   callpremust (binary.littleEndian).PutUint32 i >= 1 && topLevel(old(row(c.code)), old(off(c.code)), i - 1)
+//@   loop 1 invariant jumpOpcodes != nil && forall(k, byte, has(jumpOpcodes, k) == (k == byte(vm.OpJump) || k == byte(vm.OpJumpIfFalse) || k == byte(vm.OpJumpIfTrue)) && (has(jumpOpcodes, k) ==> jumpOpcodes[k]))
+//@   loop 1 invariant 0 <= i && (i < len(c.code) ==> topLevel(old(row(c.code)), old(off(c.code)), i)) && base(c.code) == old(base(c.code)) && off(c.code) == old(off(c.code)) && len(c.code) == old(len(c.code)) && forall(j, i, len(c.code), c.code[j] == old(c.code[j]))
+
 // ---- constant folding (C03): a folded operation must be the literal the language oracle (contracts/lang.spec)
 // ---- assigns to the operation on those operands - the same oracle the VM's operators are verified against
 //@ spec func kindL(x ast.Literal) int = ite(typeis(x, ast.NullLiteral), 0, ite(typeis(x, ast.IntLiteral), 1, ite(typeis(x, ast.FloatLiteral), 2, ite(typeis(x, ast.StringLiteral), 3, ite(typeis(x, ast.BoolLiteral), 4, 7)))))
